@@ -11,7 +11,7 @@ def plan(tier, seed):
         for new in range(3):
             if q:
                 conds.append(Cond("rename-%d-%d" % (old, new), F, "rename",
-                                  env={"C14_OLD": old, "C14_NEW": new, "C14_BODIES": "0,4,7"}, timeout=280))
+                                  env={"C14_OLD": old, "C14_NEW": new, "C14_BODIES": "0,3,4,7"}, timeout=280))
             else:
                 for bodies in ("0,1", "2,3", "4,7", "5,6"):
                     conds.append(Cond("rename-%d-%d-b%s" % (old, new, bodies.replace(",", "")), F, "rename",
@@ -23,7 +23,7 @@ def plan(tier, seed):
                            "setactive", "deletescript", "__send_command", "__read_response", "__read_line", "__read_block"],
                 bounds={"states": "3 pool names each present or absent x active none/each x old,new over all 9 pairs (incl. old = new, "
                                   "new = active, old absent) x %s body variants (LF/CRLF, no final newline, empty, protocol look-alike "
-                                  "lines, non-ASCII, nested block, Unicode/ASCII separator characters that str.splitlines() but not bytes.splitlines() treats as line breaks)" % ("3" if q else "8"),
+                                  "lines, non-ASCII, nested block, Unicode/ASCII separator characters that str.splitlines() but not bytes.splitlines() treats as line breaks)" % ("4" if q else "8"),
                         "faults": "each of the up to 5 steps (LISTSCRIPTS, GETSCRIPT, PUTSCRIPT, SETACTIVE, DELETESCRIPT) answered OK, NO, "
                                   "BYE, not at all (timeout) or by closing the connection; forced lazily, so every placement is explored"
                                   + ("" if q else "; plus a second rename back in the same session (faults OK/NO/BYE)")},
